@@ -15,17 +15,28 @@
 //! host:port, other port, host name with / without port, IPv6 reference); the peer echoes the Via as is or
 //! with `received` / `rport` added. Every peer message arrives by one of four paths: the usual one, another
 //! source port, another source IP, another local transport of the endpoint.
+//! Transient transport faults: the write of a response can FAIL (`send` returns ECONNREFUSED, nothing goes on the
+//! wire) in the two places where that is not the answer the application is waiting for: the final response a
+//! non-INVITE server transaction (the application's or the endpoint's own) retransmits for a copy of the request
+//! over an unreliable transport, and a provisional response (the application ignores the error and keeps the
+//! transaction). The fault is aimed at that one response by its identifiers, so nothing else is hit. Afterwards
+//! the history goes on: further copies arrive inside the transaction's life, and after its end.
 //! Oracle: symbolic reference model of RFC 3261 17.1.3 / 17.2.3 (identifier equality only) that predicts which
 //! requests the layers are shown, in which order, and which responses each client transaction's receive()
 //! yields. Matching is by the identifiers in the message only: neither the advertised sent-by of a client
 //! transaction, nor extra Via parameters, nor the source address / local transport a message arrives by, nor
-//! who created the server transaction, enter the prediction.
+//! who created the server transaction, nor whether a response write of the transaction failed, enter the
+//! prediction: a server transaction that has sent its final response keeps absorbing copies until 64*T1 after
+//! that response (unreliable) whether or not a retransmission of the response could be written.
 //! Not asserted: arrivals on a transaction's end-of-life edge (see `assumptions`); whether a request whose
 //! Request-Line method differs from its CSeq method is ITSELF shown to the layers or absorbed (RFC 3261 matches
 //! on the request method, ezk keys on the CSeq method, the statement is silent) — asserted is only that such a
 //! message (never with an ACK line) neither starts nor ends a transaction, i.e. every well-formed message
 //! after it is treated as if it had not arrived; what goes on the wire (retransmitted responses, the status the
-//! endpoint answers an untaken request with, which transport a response leaves on).
+//! endpoint answers an untaken request with, which transport a response leaves on); what becomes of a transaction
+//! when the write of the application's FINAL answer itself, of an INVITE failure response retransmission, or of a
+//! client transaction's request fails (ezk reports those errors to the application and ends the transaction;
+//! never generated).
 
 use super::c05::Res;
 use crate::engine::*;
@@ -76,6 +87,13 @@ pub struct ReqEv {
     /// 2 from another source IP; 3 on another local transport of the endpoint
     #[serde(default)]
     pub path: u8,
+    /// k > 0: the write of the response this arrival makes a transaction retransmit FAILS (the transport's
+    /// `send` returns an io::Error, nothing goes on the wire: what a UDP socket reports after an ICMP port
+    /// unreachable). Only in effect when the arrival is a copy absorbed by a non-INVITE server transaction that
+    /// has sent its final response over an unreliable transport (the one place where a request makes a
+    /// transaction write although the application has long been told that its answer went out); ignored otherwise.
+    #[serde(default)]
+    pub fault: u8,
 }
 
 /// number of arrival paths (ReqEv::path, Ev::Resp::path)
@@ -145,8 +163,15 @@ fn line_method(r: &ReqEv) -> Option<&'static str> {
 pub enum Ev {
     /// peer sends a request
     Req(ReqEv),
-    /// application answers one of the requests it holds: kind 0 provisional, 1 2xx, 2 failure
-    Answer { sel: u16, kind: u8 },
+    /// application answers one of the requests it holds: kind 0 provisional, 1 2xx, 2 failure;
+    /// `fault` k > 0 on a provisional answer: the write of that provisional response fails (the application
+    /// ignores the error and keeps holding the transaction); ignored for final answers
+    Answer {
+        sel: u16,
+        kind: u8,
+        #[serde(default)]
+        fault: u8,
+    },
     /// application sends a request (client transaction) in a slot; `via` selects what it advertises as
     /// sent-by of its Via (`ADVERTISED`)
     Send {
@@ -214,13 +239,15 @@ pub fn strategy() -> BoxedStrategy<Case> {
         // no layer takes the request (the endpoint answers it by itself)
         prop_oneof![4 => Just(0u8), 1 => Just(1u8)],
         path_strategy(),
+        // the response write this arrival triggers fails
+        prop_oneof![2 => Just(0u8), 1 => Just(1u8)],
     )
-        .prop_map(|(branch, method, call_id, from_tag, cseq, sent_by, line, take, path)| {
-            Ev::Req(ReqEv { branch, method, call_id, from_tag, cseq, sent_by, line, take, path })
+        .prop_map(|(branch, method, call_id, from_tag, cseq, sent_by, line, take, path, fault)| {
+            Ev::Req(ReqEv { branch, method, call_id, from_tag, cseq, sent_by, line, take, path, fault })
         });
     let ev = prop_oneof![
         6 => req,
-        3 => (any::<u16>(), 0u8..3).prop_map(|(sel, kind)| Ev::Answer { sel, kind }),
+        3 => (any::<u16>(), 0u8..3, prop_oneof![2 => Just(0u8), 1 => Just(1u8)]).prop_map(|(sel, kind, fault)| Ev::Answer { sel, kind, fault }),
         2 => (0u8..2, 0u8..3, via_strategy()).prop_map(|(slot, method, via)| Ev::Send { slot, method, via }),
         4 => (0u8..2, prop_oneof![3 => Just(0u8), 1 => Just(1u8), 1 => Just(2u8)], prop_oneof![3 => Just(0u8), 1 => Just(1u8)],
               prop_oneof![Just(100u16), Just(180u16), Just(200u16), Just(404u16), Just(603u16)],
@@ -268,10 +295,13 @@ pub fn lifecycle_strategy() -> BoxedStrategy<Case> {
         // the base request is left alone by the layers (answered by the endpoint itself, the application's
         // answer event then finds nothing to answer); arrival path of the copies; advertised Via of the client
         // transaction; arrival path and Via decoration of the responses
-        (prop_oneof![3 => Just(0u8), 1 => Just(1u8)], path_strategy(), via_strategy(), path_strategy(), 0u8..3),
+        // `faults`: bit 0: the response write the mid-life copy triggers fails; bit 1: the one the copy near the
+        // end of life triggers; bit 2: a provisional answer precedes the final one and its write fails
+        (prop_oneof![3 => Just(0u8), 1 => Just(1u8)], path_strategy(), via_strategy(), path_strategy(), 0u8..3,
+         prop_oneof![3 => Just(0u8), 2 => Just(1u8), 1 => Just(2u8), 1 => Just(3u8), 1 => Just(4u8), 1 => Just(5u8)]),
     )
-        .prop_map(|(reliable, (b, m, kind, g1), g2, (vary, ack), (cm, code, g3), g4, (rb, rc, code2), rng, mid, flood, probe, (take, qpath, via, rpath, decor))| {
-            let base = ReqEv { branch: BranchSym::Peer(b), method: m, call_id: 0, from_tag: 0, cseq: 0, sent_by: 0, line: 0, take, path: 0 };
+        .prop_map(|(reliable, (b, m, kind, g1), g2, (vary, ack), (cm, code, g3), g4, (rb, rc, code2), rng, mid, flood, probe, (take, qpath, via, rpath, decor, faults))| {
+            let base = ReqEv { branch: BranchSym::Peer(b), method: m, call_id: 0, from_tag: 0, cseq: 0, sent_by: 0, line: 0, take, path: 0, fault: 0 };
             let probe_ev = |line: u8, as_ack: bool| {
                 Ev::Req(ReqEv { line, method: if m == 0 && as_ack { 4 } else { m }, ..base.clone() })
             };
@@ -295,14 +325,18 @@ pub fn lifecycle_strategy() -> BoxedStrategy<Case> {
                     g1 -= pg;
                 }
             }
-            events.push((g1, Ev::Answer { sel: 0, kind }));
+            if faults & 4 != 0 && g1 > 1 {
+                events.push((1, Ev::Answer { sel: 0, kind: 0, fault: 1 }));
+                g1 -= 1;
+            }
+            events.push((g1, Ev::Answer { sel: 0, kind, fault: 0 }));
             let mut g2 = g2;
             if let Some((line, as_ack, true, pg)) = probe {
                 events.push((pg, probe_ev(line, as_ack)));
                 g2 -= pg;
             }
             if let Some(mg) = mid.filter(|mg| *mg + 10 < g2 && !(ack && m == 0)) {
-                events.push((mg, Ev::Req(ReqEv { path: qpath, ..base.clone() })));
+                events.push((mg, Ev::Req(ReqEv { path: qpath, fault: faults & 1, ..base.clone() })));
                 g2 -= mg;
             }
             if ack && m == 0 {
@@ -310,6 +344,7 @@ pub fn lifecycle_strategy() -> BoxedStrategy<Case> {
                 events.push((if rng % 4 < 2 { 1 } else { 50 }, Ev::Req(ReqEv { method: 4, ..base.clone() })));
             }
             copy.path = qpath;
+            copy.fault = faults & 2;
             events.push((g2, Ev::Req(copy.clone())));
             events.push((1, Ev::Req(base)));
             events.push((3, Ev::Send { slot: 0, method: cm, via }));
@@ -366,6 +401,8 @@ struct STsx {
     auto: bool,
     /// arrival path of the request that created it
     path: u8,
+    /// a response write of this transaction has been made to fail
+    faulted: bool,
 }
 
 #[derive(Clone, Debug, PartialEq)]
@@ -390,8 +427,9 @@ struct CSlot {
 /// concrete action for the world to execute
 #[derive(Clone, Debug)]
 pub enum Act {
-    Req { marker: String, ev: ReqEv },
-    Answer { marker: String, kind: u8, invite: bool },
+    /// `fault`: the next write of a response to this request, in this instant, fails
+    Req { marker: String, ev: ReqEv, fault: bool },
+    Answer { marker: String, kind: u8, invite: bool, fault: bool },
     Send { slot: u8, method: &'static str, via: u8 },
     Resp { marker: String, slot: u8, branch: u8, cseq_method: u8, code: u16, path: u8, decor: u8 },
     Nop,
@@ -422,6 +460,12 @@ pub struct Prediction {
     pub advertised_via: bool,
     /// a response was delivered that arrived by another path than the request left on
     pub resp_other_path: bool,
+    /// the write of a final response retransmitted for a copy of the request was made to fail
+    pub fault_retrans: bool,
+    /// the write of a provisional response was made to fail
+    pub fault_prov: bool,
+    /// markers of the requests that met a live server transaction one of whose response writes had failed before
+    pub after_fault: Vec<String>,
 }
 
 fn near(t: u64, edge: u64) -> bool {
@@ -443,6 +487,8 @@ pub fn predict(case: &Case) -> Prediction {
     let mut probe_hit = false;
     let mut resp_during_send = false;
     let (mut untaken, mut auto_hit, mut req_other_path, mut advertised_via, mut resp_other_path) = (false, false, false, false, false);
+    let (mut fault_retrans, mut fault_prov) = (false, false);
+    let mut after_fault: Vec<String> = vec![];
     let mut seen_keys: Vec<RefKey> = vec![];
     let mut t = 0u64;
 
@@ -488,7 +534,7 @@ pub fn predict(case: &Case) -> Prediction {
                     }) {
                         probe_hit = true;
                     }
-                    script.push((t, Act::Req { marker: format!("p{i}"), ev: r }));
+                    script.push((t, Act::Req { marker: format!("p{i}"), ev: r, fault: false }));
                     continue;
                 }
                 let key = match branch {
@@ -544,9 +590,22 @@ pub fn predict(case: &Case) -> Prediction {
                     cutoff = Some(t);
                     break;
                 }
+                let mut fault = false;
                 match hit {
                     Some(idx) => {
                         let s = &mut stsx[idx];
+                        // A failed write of a response (provisional, or a final one retransmitted for a copy) is
+                        // not the end of the transaction: the application keeps holding it / was told long ago
+                        // that its answer went out, the transaction lives until its timer ends it, and copies
+                        // of the request stay absorbed until then.
+                        if s.faulted {
+                            after_fault.push(marker.clone());
+                        }
+                        if r.fault != 0 && !case.reliable && !s.invite && matches!(s.state, SState::Answered { .. }) {
+                            fault = true;
+                            fault_retrans = true;
+                            s.faulted = true;
+                        }
                         // (17.2.3 matches on identifiers of the message only: neither the source address nor
                         // the local transport it arrives on, nor who created the transaction, matter)
                         auto_hit |= s.auto;
@@ -586,14 +645,14 @@ pub fn predict(case: &Case) -> Prediction {
                             } else {
                                 SState::Answered { until: t + TIMEOUT }
                             };
-                            stsx.push(STsx { key, invite: method == "INVITE", marker: marker.clone(), state, auto, path: r.path });
+                            stsx.push(STsx { key, invite: method == "INVITE", marker: marker.clone(), state, auto, path: r.path, faulted: false });
                         }
                     }
                 }
                 // after an ACK ended an INVITE transaction, copies arriving within T4 are not asserted
-                script.push((t, Act::Req { marker, ev: r }));
+                script.push((t, Act::Req { marker, ev: r, fault }));
             }
-            Ev::Answer { sel, kind } => {
+            Ev::Answer { sel, kind, fault } => {
                 let pending: Vec<usize> = stsx
                     .iter()
                     .enumerate()
@@ -607,8 +666,14 @@ pub fn predict(case: &Case) -> Prediction {
                 let idx = pending[pick_idx(*sel, pending.len())];
                 let s = &mut stsx[idx];
                 let queued_ack = matches!(s.state, SState::Pending { queued_ack: true });
+                let fault = *fault != 0 && kind % 3 == 0;
                 match kind % 3 {
-                    0 => {}
+                    0 => {
+                        if fault {
+                            fault_prov = true;
+                            s.faulted = true;
+                        }
+                    }
                     1 => {
                         s.state = if s.invite {
                             SState::Accepted
@@ -632,7 +697,7 @@ pub fn predict(case: &Case) -> Prediction {
                         }
                     }
                 }
-                script.push((t, Act::Answer { marker: s.marker.clone(), kind: kind % 3, invite: s.invite }));
+                script.push((t, Act::Answer { marker: s.marker.clone(), kind: kind % 3, invite: s.invite, fault }));
             }
             Ev::Send { slot, method, via } => {
                 let sl = (*slot % 2) as usize;
@@ -758,6 +823,9 @@ pub fn predict(case: &Case) -> Prediction {
         req_other_path,
         advertised_via,
         resp_other_path,
+        fault_retrans,
+        fault_prov,
+        after_fault,
     }
 }
 
@@ -809,6 +877,90 @@ pub struct Observed {
     pub seen: Vec<Seen>,
     pub slot_results: [Vec<(u64, Res)>; 2],
     pub problems: Vec<String>,
+    /// number of response writes that were made to fail
+    pub faults_hit: usize,
+}
+
+/// what ties a response to the request it answers (RFC 3261 8.2.6.2: copied from the request)
+#[derive(Clone, Debug, PartialEq)]
+struct Ids {
+    call_id: Option<String>,
+    cseq: Option<(u32, String)>,
+    branch: Option<String>,
+    from_tag: Option<String>,
+}
+
+impl Ids {
+    fn of(m: &WireMsg) -> Ids {
+        Ids { call_id: m.call_id().map(|c| c.to_string()), cseq: m.cseq(), branch: m.via_branch(), from_tag: m.from_tag() }
+    }
+}
+
+/// the response a fault is aimed at: identifiers, and provisional (true) or final (false) status
+type Aim = (Ids, bool);
+
+#[derive(Default)]
+struct FaultPlan {
+    /// the next write of a response with these identifiers fails
+    armed: Option<Aim>,
+    hits: usize,
+}
+
+/// A transport of the endpoint: the world's mock datagram transport, except that the write of the one response
+/// the plan is armed for returns an io::Error (ECONNREFUSED, what a UDP socket reports after an ICMP port
+/// unreachable) and puts nothing on the wire. The fault is aimed by the identifiers of the message, so no other
+/// write that happens in the same instant (a timer of another transaction) can be hit by it.
+struct FaultyTransport {
+    inner: sip_core::transport::TpHandle,
+    plan: Arc<Mutex<FaultPlan>>,
+}
+
+impl std::fmt::Debug for FaultyTransport {
+    fn fmt(&self, f: &mut std::fmt::Formatter<'_>) -> std::fmt::Result {
+        write!(f, "{:?}", self.inner)
+    }
+}
+impl std::fmt::Display for FaultyTransport {
+    fn fmt(&self, f: &mut std::fmt::Formatter<'_>) -> std::fmt::Result {
+        write!(f, "{}", self.inner)
+    }
+}
+
+#[async_trait::async_trait]
+impl sip_core::transport::Transport for FaultyTransport {
+    fn name(&self) -> &'static str {
+        self.inner.name()
+    }
+    fn secure(&self) -> bool {
+        self.inner.secure()
+    }
+    fn reliable(&self) -> bool {
+        self.inner.reliable()
+    }
+    fn bound(&self) -> SocketAddr {
+        self.inner.bound()
+    }
+    fn sent_by(&self) -> SocketAddr {
+        self.inner.sent_by()
+    }
+    fn direction(&self) -> sip_core::transport::Direction {
+        self.inner.direction()
+    }
+    async fn send(&self, message: &[u8], target: SocketAddr) -> std::io::Result<()> {
+        {
+            let mut plan = self.plan.lock();
+            if let Some((ids, provisional)) = &plan.armed {
+                if WireMsg::parse(message)
+                    .map_or(false, |m| m.status().map_or(false, |c| (c < 200) == *provisional) && Ids::of(&m) == *ids)
+                {
+                    plan.armed = None;
+                    plan.hits += 1;
+                    return Err(std::io::Error::new(std::io::ErrorKind::ConnectionRefused, "mock transient send failure"));
+                }
+            }
+        }
+        self.inner.send(message, target).await
+    }
 }
 
 fn req_bytes(marker: &str, r: &ReqEv, client_branches: &[Option<String>; 2]) -> Vec<u8> {
@@ -848,6 +1000,12 @@ pub fn run(case: &Case, pred: &Prediction) -> Observed {
         let (tp, _) = mock_datagram_slow(&log, "UDP", false, reliable, &format!("{}:{}", LOCAL.0, LOCAL.1), if slow { SLOW_MS } else { 0 });
         // a second transport of the same kind: messages arriving by path 3 come in here
         let (tp2, _) = mock_datagram_slow(&log, "UDP", false, reliable, LOCAL2, if slow { SLOW_MS } else { 0 });
+        // both with the send-fault plan of this case in front
+        let plan: Arc<Mutex<FaultPlan>> = Default::default();
+        let tp = sip_core::transport::TpHandle::new(FaultyTransport { inner: tp, plan: plan.clone() });
+        let tp2 = sip_core::transport::TpHandle::new(FaultyTransport { inner: tp2, plan: plan.clone() });
+        // identifiers of every request the peer sent, by marker
+        let mut ids_of: HashMap<String, Ids> = HashMap::new();
         let rec = Recorder::new(clock);
         let (tx, mut rx) = mpsc::unbounded_channel();
         let mut b = offline_builder();
@@ -885,12 +1043,24 @@ pub fn run(case: &Case, pred: &Prediction) -> Observed {
             clock.until(t).await;
             match act {
                 Act::Nop => {}
-                Act::Req { marker, ev } => {
+                Act::Req { marker, ev, fault } => {
                     let bytes = req_bytes(&marker, &ev, &client_branches);
+                    let ids = WireMsg::parse(&bytes).map(|m| Ids::of(&m));
+                    if fault {
+                        // the response the transaction writes because of this arrival
+                        plan.lock().armed = ids.clone().map(|ids| (ids, false));
+                    }
+                    if let Some(ids) = ids {
+                        ids_of.insert(marker.clone(), ids);
+                    }
                     inject(&endpoint, if ev.path % PATHS == 3 { &tp2 } else { &tp }, source_of(ev.path), &bytes);
                 }
-                Act::Answer { marker, kind, invite } => {
+                Act::Answer { marker, kind, invite, fault } => {
                     drain!();
+                    if fault {
+                        // the provisional response written now
+                        plan.lock().armed = ids_of.get(&marker).cloned().map(|ids| (ids, true));
+                    }
                     let held = match pending.remove(&marker) {
                         Some(req) => Some(Held::Fresh(req)),
                         None => match provisional.remove(&marker) {
@@ -1057,6 +1227,8 @@ pub fn run(case: &Case, pred: &Prediction) -> Observed {
                 }
             }
             settle().await;
+            // a fault is aimed at a write of this instant only
+            plan.lock().armed = None;
             drain!();
         }
         settle().await;
@@ -1070,7 +1242,8 @@ pub fn run(case: &Case, pred: &Prediction) -> Observed {
         let r1 = slot_results[1].lock().clone();
         drop(pending);
         drop(provisional);
-        Observed { seen, slot_results: [r0, r1], problems }
+        let faults_hit = plan.lock().hits;
+        Observed { seen, slot_results: [r0, r1], problems, faults_hit }
     })
 }
 
@@ -1129,7 +1302,21 @@ pub fn check(case: &Case, out: &mut CaseOut) {
     if case.events.iter().any(|(_, e)| matches!(e, Ev::Resp { decor, .. } if decor % 3 != 0)) {
         out.class("response-via-with-received/rport");
     }
+    if pred.fault_retrans {
+        out.class("write-of-retransmitted-final-response-fails");
+    }
+    if pred.fault_prov {
+        out.class("write-of-provisional-response-fails");
+    }
+    if obs.faults_hit > 0 {
+        out.class("failed-response-write-observed");
+    }
+    let copy_after_fault = obs.faults_hit > 0 && !pred.after_fault.is_empty();
+    if copy_after_fault {
+        out.class("copy-or-ack-meets-transaction-after-failed-response-write");
+    }
     if pred.near_miss
+        || copy_after_fault
         || pred.near_edge
         || pred.probe_hit
         || pred.resp_during_send
@@ -1161,8 +1348,8 @@ pub fn check(case: &Case, out: &mut CaseOut) {
         .filter(|m| arrived_before_cutoff(m))
         .collect();
     out.note = Some(format!(
-        "layers saw {:?}; slot results {:?} / {:?}; cutoff {:?}",
-        seen, obs.slot_results[0], obs.slot_results[1], pred.cutoff
+        "layers saw {:?}; slot results {:?} / {:?}; cutoff {:?}; failed response writes {}",
+        seen, obs.slot_results[0], obs.slot_results[1], pred.cutoff, obs.faults_hit
     ));
     for p in &obs.problems {
         out.fail("c04.server/answer-target-missing", p.clone());
@@ -1180,6 +1367,10 @@ pub fn check(case: &Case, out: &mut CaseOut) {
             }
         };
         let locus = match (extra, missing) {
+            // (a request the reference model has absorbed by a transaction one of whose response writes failed)
+            (Some(e), _) if !pred.surfaced.contains(e) && obs.faults_hit > 0 && pred.after_fault.contains(e) => {
+                format!("shown-again-after-failed-response-write:{}", method_of(e))
+            }
             (Some(e), _) if !pred.surfaced.contains(e) => format!("shown-again-or-not-absorbed:{}", method_of(e)),
             (_, Some(m)) => format!("not-shown:{}", method_of(m)),
             _ => "order".to_string(),
@@ -1255,12 +1446,13 @@ pub fn property() -> Property {
     Property {
         fuzz: vec![],
         id: "C04",
-        rule: "a case = history of 3..12 timed events over a deliberately small alphabet (2 RFC 3261 branches, a cookie-less branch, no branch, the branches of ezk's own client transactions; methods INVITE/OPTIONS/BYE/CANCEL/ACK/PRACK; 2 Call-IDs, From-tags, CSeq numbers, sent-by values; about 1 request in 8 carries a non-ACK Request-Line method that differs from its CSeq method): peer requests, application answers (provisional / 2xx / failure) to held requests, application sends, peer responses whose branch and CSeq method are each equal or different; gaps from a grid bracketing T4, 64*T1 and the INVITE timeout window; about 1 request in 5 is left alone by the layer (the endpoint answers it by itself, copies and the ACK must be absorbed by that transaction); two thirds of the client transactions advertise a sent-by other than the transport's own in their Via (6 shapes), 2 responses in 5 carry received/rport in the echoed Via; 3 peer messages in 8 arrive from another source port / source IP / on a second local transport; in a third to a half of the cases every transport write takes 2 ms and all application writes (answers, send_request/send_invite) run in their own task, so 1 ms gaps put the next message inside a write that has not returned yet (response before send_request returns, copy while a provisional/final answer is written). The lifecycle sub builds request / answer / copy-around-end-of-life histories, optionally with a flood of copies, a mid-life copy, and a mismatched request (line method != CSeq method, CSeq method of the base request or ACK for an INVITE) before or after the answer; in a quarter of them the base request is one no layer takes; advertised Via, Via decoration and arrival paths are drawn as in the history sub. A symbolic RFC 3261 17.1.3/17.2.3 reference model predicts for every message: absorbed / shown to layers / delivered to client transaction X / dropped. Non-trivial = two keys differing in exactly one component, a response with foreign branch or CSeq method, an arrival within 5 ms of a transaction's end, a mismatched request meeting a live server transaction with its branch/identifiers, a response arriving while the write of its request is in progress, a copy / ACK meeting the transaction the endpoint created for an untaken request, a copy / ACK arriving by another path than the first request, a response delivered to a client transaction that advertises a foreign sent-by, or a response delivered that arrived by another path; distinct by the event sequence.",
+        rule: "a case = history of 3..12 timed events over a deliberately small alphabet (2 RFC 3261 branches, a cookie-less branch, no branch, the branches of ezk's own client transactions; methods INVITE/OPTIONS/BYE/CANCEL/ACK/PRACK; 2 Call-IDs, From-tags, CSeq numbers, sent-by values; about 1 request in 8 carries a non-ACK Request-Line method that differs from its CSeq method): peer requests, application answers (provisional / 2xx / failure) to held requests, application sends, peer responses whose branch and CSeq method are each equal or different; gaps from a grid bracketing T4, 64*T1 and the INVITE timeout window; about 1 request in 5 is left alone by the layer (the endpoint answers it by itself, copies and the ACK must be absorbed by that transaction); two thirds of the client transactions advertise a sent-by other than the transport's own in their Via (6 shapes), 2 responses in 5 carry received/rport in the echoed Via; 3 peer messages in 8 arrive from another source port / source IP / on a second local transport; 1 request in 3 carries a send fault that takes effect when the request is a copy absorbed by a non-INVITE server transaction which has sent its final response over an unreliable transport (the write of the retransmitted response then fails with ECONNREFUSED, aimed at that response by its identifiers), 1 provisional answer in 3 fails to be written (the application keeps the transaction); in a third to a half of the cases every transport write takes 2 ms and all application writes (answers, send_request/send_invite) run in their own task, so 1 ms gaps put the next message inside a write that has not returned yet (response before send_request returns, copy while a provisional/final answer is written). The lifecycle sub builds request / answer / copy-around-end-of-life histories, optionally with a flood of copies, a mid-life copy, and a mismatched request (line method != CSeq method, CSeq method of the base request or ACK for an INVITE) before or after the answer; in a quarter of them the base request is one no layer takes; advertised Via, Via decoration and arrival paths are drawn as in the history sub; in half of them the response write triggered by the mid-life copy and / or by the copy near the end of life fails, or a provisional answer whose write fails precedes the final one (the copies that follow must still be absorbed up to the transaction's end and start a new transaction after it). A symbolic RFC 3261 17.1.3/17.2.3 reference model predicts for every message: absorbed / shown to layers / delivered to client transaction X / dropped. Non-trivial = two keys differing in exactly one component, a response with foreign branch or CSeq method, an arrival within 5 ms of a transaction's end, a mismatched request meeting a live server transaction with its branch/identifiers, a response arriving while the write of its request is in progress, a copy / ACK meeting the transaction the endpoint created for an untaken request, a copy / ACK arriving by another path than the first request, a response delivered to a client transaction that advertises a foreign sent-by, a response delivered that arrived by another path, or a copy / ACK meeting a server transaction one of whose response writes had failed; distinct by the event sequence.",
         assumptions: vec![
             "arrivals within 3 ms of a transaction's end, inside the INVITE-failure timeout window [64*T1, 64*T1+T2], and the non-INVITE Proceeding timeout are don't-cares: the comparison stops there",
             "the application holds every request it takes until it answers it, and drops ACKs at once; a request it does not take is taken by no layer and answered by the endpoint in the same instant (final non-2xx status; INVITE: ACK awaited like after an application failure answer)",
             "RFC 3261 17.1.3 / 17.2.3 name identifiers of the message only: a message with the identifiers of a live transaction reaches it whatever source address or local transport it arrives by, whatever sent-by the client transaction advertised (the peer echoes the Via, possibly adding received / rport), and whoever (application or endpoint) created the server transaction",
             "sent-by is not varied for RFC 3261 branches (statement silent)",
+            "a transport error on the write of a provisional response or of a RETRANSMITTED final response of a non-INVITE server transaction is transient and ends nothing: the application still holds the transaction / has been told that its answer went out and has no way to learn of the error, so the transaction keeps absorbing copies of the request until its timer (64*T1 after the final response) ends it; faults on the first write of a final answer, on INVITE failure-response retransmissions and on client requests (all reported to the application as errors, RFC 3261 17.2.4 / 17.1.4 let the transaction end there) are not generated",
             "a request whose Request-Line method differs from its CSeq method never carries an ACK line, is dropped by the application at once when shown, and whether it is shown at all is not asserted; it must leave every transaction as it was",
             "a message injected in the same millisecond in which a slow write ends is a tie whose order is fixed by the run-time; nothing is asserted that depends on that order",
         ],
